@@ -265,11 +265,18 @@ func (g *gen) tmap(depth int) *V {
 		case 0:
 			v.Vals = append(v.Vals, &V{K: "int", I: 7})
 		case 1:
-			// a nested map of leaves (the only kind of map a "/k/k2" pointer goes through in G)
+			// a nested map that "/k/k2" pointers may go through: strings, now and then a struct or a further map
 			m := &V{K: "map", Iface: true}
-			for j := 0; j < 1+g.r.Intn(2); j++ {
+			for j := 0; j < 1+g.r.Intn(3); j++ {
 				m.Keys = append(m.Keys, fmt.Sprintf("k%d", j+1))
-				m.Vals = append(m.Vals, &V{K: "str", C: g.can()})
+				switch {
+				case j > 0 && depth > 0 && g.r.Chance(1, 6):
+					m.Vals = append(m.Vals, g.strct(0))
+				case j > 0 && g.r.Chance(1, 8):
+					m.Vals = append(m.Vals, g.leafMap(true, 1))
+				default:
+					m.Vals = append(m.Vals, &V{K: "str", C: g.can()})
+				}
 			}
 			v.Vals = append(v.Vals, m)
 			nestedKey = k
@@ -298,8 +305,12 @@ func (g *gen) tmap(depth int) *V {
 		}
 		v.Tags = append(v.Tags, g.ptag("/"+k))
 	}
-	if nestedKey != "" && g.r.Chance(1, 2) {
-		v.Tags = append(v.Tags, g.ptag(fmt.Sprintf("/%s/k%d", nestedKey, 1+g.r.Intn(3))))
+	if nestedKey != "" && g.r.Chance(2, 3) {
+		// nested pointers name keys holding strings (k1 always does) or absent keys
+		for n := 1 + g.r.Intn(2); n > 0; n-- {
+			k2 := []int{1, 1, 4}[g.r.Intn(3)]
+			v.Tags = append(v.Tags, g.ptag(fmt.Sprintf("/%s/k%d", nestedKey, k2)))
+		}
 	}
 	if g.r.Chance(1, 40) {
 		v.Tags = append(v.Tags, g.ptag("k1")) // does not parse
@@ -434,10 +445,18 @@ func (g *gen) payload(depth int) (string, *V) {
 		case 1:
 			return "val", &V{K: "nilptr", Elem: g.strct(1)}
 		case 2:
-			return "val", &V{K: "str", C: g.can()} // a string by value cannot be redacted: error
+			// a string or []byte by value cannot be set: error, nothing forwarded
+			if g.r.Bool() {
+				return "val", &V{K: "bytes", C: g.can()}
+			}
+			return "val", &V{K: "str", C: g.can()}
 		default:
 			return "rotate", nil
 		}
+	case 22:
+		// a struct handed over BY VALUE (outside G for the no-leak theorem: its own strings cannot be set; what it refers
+		// to is still filtered, in the private copy only)
+		return "val", g.strct(depth)
 	default:
 		return "val", &V{K: "ptr", Elem: g.strct(depth)}
 	}
